@@ -1,10 +1,25 @@
 """What each claimed check asserts (source for MANIFEST.json)."""
 ENGINES = [
+    {"name": "pyvc", "path": "vlib/pyvc.py, vlib/contract.py, vlib/loops.py, vlib/builtins_model.py, vlib/monitor.py, vlib/world.py, vlib/smt.py",
+     "serves_properties": ["C06", "C14", "C17"],
+     "kind_free_text": "VC generator: symbolic execution of the real function ASTs against sidecar contracts (pre/post, class and loop invariants, variants, raises clauses, monitor invariants, ghost state); obligations discharged by cvc5 1.0.3 / z3 5.1.0"},
     {"name": "relang+sitelang", "path": "vlib/relang.py, vlib/sitelang.py", "serves_properties": ["C10"],
      "kind_free_text": "regular-language decision procedure: symbolic execution of the real acceptance fragments with regular pre-images, DFA product equivalence against RFC grammars"},
 ]
 NOT_APPLICABLE = {}
 META = {
+    "C06": dict(engine="pyvc", level="proof", design_ref="DESIGN.md section 6 C06",
+        technique="contract-based deductive verification (pyvc VC generation from the real AST, cvc5/z3)",
+        text="The bodies of both receivers, HTTPRequestParser.received/parse_header, get_header_lines and split_uri are verified against contracts for every input byte string, every object state satisfying the class invariants and every value of the limits: no exception other than the declared parsing errors escapes (each builtin precondition is an obligation), results stay in [0, len(data)], variants give termination of the chunk loop, and reaching max_request_header_size / max_request_body_size forces a completed request carrying the 431/413 error object.",
+        note="trusted: pyvc and its Python-subset semantics, the builtin/stdlib contracts, solvers; composition into the end-to-end response/closure statement is argued per clause (C01/C03/C11), not one theorem"),
+    "C14": dict(engine="pyvc", level="proof", design_ref="DESIGN.md section 6 C14 and section 5",
+        technique="contract-based deductive verification: monitor invariant with ghost sequences, obligations at every lock release/wait",
+        text="Classical monitor rule on the real ThreadedTaskDispatcher methods: the invariant submitted == taken ++ queue and the stop-count bounds are proved at every release and wait; per-thread ghost sequences prove each taken task is serviced exactly once by a worker (never cancelled) or cancelled exactly once by shutdown (never serviced); set_thread_count establishes the target and workers/add_task preserve it; workers survive any BaseException.",
+        note="trusted: monitor rule soundness (R1 is itself checked), Lock/Condition model without spurious wake-ups, demonic task bodies; liveness (convergence, shutdown timeout) not decided"),
+    "C17": dict(engine="pyvc", level="proof", design_ref="DESIGN.md section 6 C17",
+        technique="contract-based deductive verification over an abstract view (FIFO byte queue) with representation invariants; file model assumed",
+        text="Every public operation of FileBasedBuffer, OverflowableBuffer (including all migrations between bytes / BytesIO / tempfile representations) and ReadOnlyFileBasedBuffer is verified for all inputs and thresholds against whole-view FIFO contracts, representation invariants and the copy-loop invariant; the file model itself is an assumption exercised by a bounded stand-in.",
+        note="trusted: the (content, pos) file model for BytesIO/TemporaryFile; prune() not under contract; I/O errors out of scope"),
     "C10": dict(engine="relang+sitelang", level="proof", design_ref="DESIGN.md section 6 C10",
         technique="contract-based deductive verification: per-site language-equality obligations generated from the AST of the real functions and discharged on automata (all lengths)",
         text="For each framing-critical acceptance site the exact regular language of tokens the real code refuses is derived from the function's AST (regular pre-images of strip/slice/find/regex gates, for tokens of every length) and proved equal to the RFC grammar by DFA product construction; every difference comes with a shortest witness replayed through the real function. Residual, recorded differences (request-line leniency) are listed in known_findings.json, so the evidence level is 'other' while they remain.",
